@@ -41,7 +41,7 @@ type Profile struct {
 
 func baseWeights() map[string]int {
 	return map[string]int{"aol": 30, "aolAdv": 8, "did": 18, "didAdv": 8, "pnft": 22, "pnftAdv": 8, "bank": 4, "burn": 3, "vest": 1,
-		"authz": 5, "gov": 1, "crisis": 1, "group": 2, "boundary": 4, "multiDefect": 2, "hostile": 3, "tamper": 4, "replay": 4, "multi": 5, "hquery": 2, "rollback": 4}
+		"authz": 5, "gov": 1, "crisis": 1, "group": 2, "staking": 2, "boundary": 4, "multiDefect": 2, "hostile": 3, "tamper": 4, "replay": 4, "multi": 5, "hquery": 2, "rollback": 4}
 }
 
 func profileFor(prop, tier string, rng *PRNG) *Profile {
@@ -123,6 +123,7 @@ func profileFor(prop, tier string, rng *PRNG) *Profile {
 		p.PUpgrade = 0.4 // restarts around (executed and skipped) upgrade heights
 		boost("rollback", 3)
 		boost("gov", 8)
+		boost("staking", 4)
 		boost("crisis", 5)
 		boost("vest", 6) // coins that unlock with time at the burn address: what a node does about them must not depend on when it started
 		p.PJump = 0.3
@@ -199,7 +200,7 @@ func profileFor(prop, tier string, rng *PRNG) *Profile {
 	if rng.Chance(0.3) {
 		p.PRestart0 = 0
 	}
-	for _, k := range []string{"bank", "burn", "vest", "authz", "hquery", "hostile", "boundary", "multiDefect", "gov", "crisis", "group"} {
+	for _, k := range []string{"bank", "burn", "vest", "authz", "hquery", "hostile", "boundary", "multiDefect", "gov", "crisis", "group", "staking"} {
 		if rng.Chance(0.25) && p.W[k] < 40 {
 			p.W[k] = 0
 		}
@@ -250,7 +251,9 @@ type didRef struct {
 
 func (g *Gen) addr(i int) string { return g.env.Accs[i%len(g.env.Accs)].Addr.String() }
 
-var topicPool = []string{"a", "a.", "a.b", "a.b-c", "A", "a_b", "ab", "b", "0", "topic-1", "topic-10", "t." + strings.Repeat("x", 68), strings.Repeat("Z", 70), "-", "._-"}
+var topicPool = []string{"a", "a.", "a.b", "a.b-c", "A", "a_b", "ab", "b", "0", "topic-1", "topic-10", "t." + strings.Repeat("x", 68), strings.Repeat("Z", 70), "-", "._-",
+	// lengths whose length byte (the first byte of the store key part) is itself a character of the name alphabet: 45 '-', 46 '.', 48-57 digits, 65-69 'A'-'E'
+	strings.Repeat("m", 45), "n" + strings.Repeat("m", 45), strings.Repeat("d", 48), strings.Repeat("d", 57), strings.Repeat("E", 65), strings.Repeat("e", 69)}
 // identifier pools: prefixes of one another, separators, case twins, white-space twins ("dn" / "dn " / " dn"), NUL, multi-byte
 var denomPool = []string{"dn", "dn1", "dn/x", "d", "dnx", "den:om", "DN", strings.Repeat("q", 90), "dn\x00x", "dn\x00", "ünï", "a b", "dn ", " dn", "dn\t", "d "}
 var tokenPool = []string{"dn", "dn1", "d", "x", "y", "x/y", "x\x00y", "1", "10", "tok", "T", strings.Repeat("k", 120), "\x00", "é", "x ", " x", "tok ", "1\n"}
@@ -516,6 +519,16 @@ func (g *Gen) emit(t *TxSpec) int {
 			t.Fee2Den, t.Fee2Amt = "uatom", "50"
 		}
 	}
+	if t.Granter == "" && t.ReplayOf == 0 && g.rng.Chance(map[bool]float64{true: 0.08, false: 0.015}[g.prop == "C15"]) {
+		// the fee_granter field: another account is asked to pay the fee - one of the transaction's other signers (the
+		// writer of a sponsored append), or anybody. No allowance has been granted, so the transaction must be refused.
+		t.Granter = g.addr(g.rng.Intn(NumAccounts))
+		for i := range t.Msgs {
+			if w := t.Msgs[i].F["writer"]; t.Msgs[i].T == "aol.AddRecord" && t.Msgs[i].F["fee_payer"] != "" && g.rng.Chance(0.7) {
+				t.Granter = w
+			}
+		}
+	}
 	if t.Gas == 0 && t.ReplayOf == 0 && g.rng.Chance(map[bool]float64{true: 0.12, false: 0.04}[g.prop == "C15"]) {
 		// a gas limit somewhere between "not enough for the ante chain" and "just enough": the meter may run out at any
 		// store access inside a handler, after some of its writes
@@ -656,6 +669,8 @@ func (g *Gen) family(f string) {
 		g.famCrisis()
 	case "group":
 		g.famGroup()
+	case "staking":
+		g.famStaking()
 	case "multiDefect":
 		g.famMultiDefect()
 	case "pnftAdv":
@@ -787,6 +802,9 @@ func (g *Gen) famAolAdv() {
 	case 9, 10: // an address that is not (or no longer) a writer appends, with a LISTED writer of the same topic as the fee payer
 		if len(ws) > 0 {
 			payer := ws[r.Intn(len(ws))]
+			if r.Chance(0.3) {
+				payer = t[0] // the topic's owner pays for (and co-signs) the append of somebody who is not a writer
+			}
 			who := stranger
 			if len(ws) > 1 && r.Chance(0.5) {
 				// a writer the owner has just removed
@@ -1452,7 +1470,11 @@ func (g *Gen) famPnft() {
 		case 4:
 			if len(toks) > 0 {
 				t := toks[r.Intn(len(toks))]
-				g.tx(M("pnft.Transfer", "denom", t[0], "id", t[1], "sender", g.plan.Tokens[t[0]][t[1]].Owner, "receiver", g.addr(r.Intn(6))))
+				to := g.addr(r.Intn(6))
+				if r.Chance(0.06) {
+					to = []string{BurnAddress, g.moduleAddr()}[r.Intn(2)] // parked at an address nobody holds a key for
+				}
+				g.tx(M("pnft.Transfer", "denom", t[0], "id", t[1], "sender", g.plan.Tokens[t[0]][t[1]].Owner, "receiver", to))
 			}
 		case 5:
 			if len(toks) > 0 {
@@ -1527,7 +1549,9 @@ func (g *Gen) famPnftAdv() {
 			if sameAddr(who, tk.Owner) {
 				who = stranger
 			}
-			g.tx(M("pnft.Transfer", "denom", t[0], "id", t[1], "sender", who, "receiver", who))
+			// a non-owner moves the token: to itself, to a special address (the burn address, a module account) - a special
+			// receiver may have a path of its own
+			g.tx(M("pnft.Transfer", "denom", t[0], "id", t[1], "sender", who, "receiver", []string{who, who, BurnAddress, g.moduleAddr(), tk.Owner}[r.Intn(5)]))
 			g.tx(M("pnft.Burn", "denom", t[0], "id", t[1], "burner", who))
 		}
 	case 5: // transfer chain then the former owner acts
@@ -1687,6 +1711,22 @@ func (g *Gen) famGroup() {
 		return
 	}
 	g.emit(&TxSpec{Gas: 5_000_000, Msgs: []MsgSpec{{T: "group.Propose", F: map[string]string{"proposer": g.policyAdmins[seq-1], "policy_seq": fmt.Sprint(seq)}, Inner: inner}}})
+}
+
+// famStaking: small delegations to the chain's validator, undelegations, reward withdrawals. They fire the staking hooks
+// (distribution and slashing bookkeeping) - wiring that is set up when a process starts, not per chain. Account 0 keeps
+// the overwhelming share of the voting power (its genesis delegation is 1 000 000, these are at most 1 000 each).
+func (g *Gen) famStaking() {
+	r := g.rng
+	d := g.addr(1 + r.Intn(NumAccounts-1))
+	switch r.Pick([]int{5, 2, 2}) {
+	case 0:
+		g.emit(&TxSpec{Gas: 2_000_000, Msgs: []MsgSpec{M("staking.Delegate", "delegator", d, "amount", fmt.Sprint(r.Range(1, 1000)))}})
+	case 1:
+		g.emit(&TxSpec{Gas: 2_000_000, Msgs: []MsgSpec{M("staking.Undelegate", "delegator", d, "amount", fmt.Sprint(r.Range(1, 300)))}})
+	case 2:
+		g.emit(&TxSpec{Gas: 2_000_000, Msgs: []MsgSpec{M("distr.WithdrawReward", "delegator", d)}})
+	}
 }
 
 func (g *Gen) famBank() {
